@@ -7,7 +7,8 @@
 // in:  files {path: text}, main path, sci bool (keep source code info),
 //
 //	inject [[elemIndex, fieldNumber, hexPayload]...]  unknown (unparsed) fields appended to the
-//	       options message of the elemIndex-th element (pre-order) before the call,
+//	       options message of the elemIndex-th element (pre-order) before the call; with a fourth
+//	       component the field is appended to the descriptor message of the element itself,
 //	drop_ext [numbers]  extensions that the re-parse resolver pretends not to know (their values stay
 //	       unknown fields, as after a re-parse against an incomplete image)
 //
@@ -226,9 +227,11 @@ func dumpFile(a *addrs, fd *descriptorpb.FileDescriptorProto) map[string]any {
 }
 
 // pre-order list of the options holders, the order used by "inject"
-func holders(fd *descriptorpb.FileDescriptorProto) []func() protoreflect.Message {
+func holders(fd *descriptorpb.FileDescriptorProto) ([]func() protoreflect.Message, []protoreflect.Message) {
 	var out []func() protoreflect.Message
+	var elems []protoreflect.Message
 	add := func(m proto.Message) {
+		elems = append(elems, m.ProtoReflect())
 		out = append(out, func() protoreflect.Message {
 			r := m.ProtoReflect()
 			of := r.Descriptor().Fields().ByName("options")
@@ -275,7 +278,7 @@ func holders(fd *descriptorpb.FileDescriptorProto) []func() protoreflect.Message
 			add(m)
 		}
 	}
-	return out
+	return out, elems
 }
 
 type filteredResolver struct {
@@ -395,7 +398,7 @@ func retCase(in map[string]any) map[string]any {
 	} else if err := (proto.UnmarshalOptions{Resolver: filteredResolver{res, drop}}).Unmarshal(b, fd); err != nil {
 		panic(err)
 	}
-	hs := holders(fd)
+	hs, elems := holders(fd)
 	for _, inj := range vhlib.List(in, "inject") {
 		t, _ := inj.([]any)
 		idx := int(vhlib.AnyNum(t[0]))
@@ -404,7 +407,12 @@ func retCase(in map[string]any) map[string]any {
 		if idx >= len(hs) {
 			continue
 		}
-		m := hs[idx]()
+		var m protoreflect.Message
+		if len(t) > 3 {
+			m = elems[idx] // the descriptor message itself
+		} else {
+			m = hs[idx]()
+		}
 		u := append([]byte{}, m.GetUnknown()...)
 		u = protowire.AppendTag(u, protowire.Number(num), protowire.BytesType)
 		u = protowire.AppendBytes(u, vhlib.Unhex(payload))
